@@ -583,11 +583,14 @@ def sort_complex(a):
 def _array_comp_helper(a, b):
     au = getattr(a, "units", NULL_UNIT)
     bu = getattr(b, "units", NULL_UNIT)
-    if bu != au and au != NULL_UNIT and bu != NULL_UNIT:
-        b = b.in_units(au)
-    elif bu == NULL_UNIT:
+    # only an operand without units adopts the units of the other one, a
+    # dimensionless quantity is compared like any other quantity
+    if hasattr(a, "units") and hasattr(b, "units"):
+        if bu != au:
+            b = b.in_units(au)
+    elif not hasattr(b, "units"):
         b = np.array(b) * au
-    elif au == NULL_UNIT:
+    else:
         a = np.array(a) * bu
 
     return a, b
